@@ -109,7 +109,7 @@ CLAIMS.update({
 CLAIMS.update({
  "C02": ("F-MAP classification of always-infallible functions + P-VAR reachability of message-error constructions under the declared parameter kinds; flag-pairing dominance; abstract interpretation of Op::type_info's MIR (P-ABS) against the error-capable variant pairs of each VrlValueArithmetic method (P-VAR)",
          "R02a: a function that is always typed infallible has no reachable message-error construction in resolve (4 genuine findings recorded); "
-         "R02c: abortable/fallible program flags are set where their cause is compiled; R02d: an operator typed infallible for operand kinds (K1, K2) has no variant pair inside K1 x K2 that reaches a type/zero error in its method; R02e: a fallible operand that is always evaluated makes the operation fallible (found and repaired: `to_int(.x) / 2`), also for Not/Group/Query; R02g a coercion narrower than the declared parameter kind is matched by a fallible type_def (P-VAR x P-ABS); R02h per-argument-type refinement of R02a; R01g (shared with C01) branch isolation while compiling if/else. Not the compiler's whole fallibility calculus.", "§4 C02"),
+         "R02c: abortable/fallible program flags are set where their cause is compiled; R02d: an operator typed infallible for operand kinds (K1, K2) has no variant pair inside K1 x K2 that reaches a type/zero error in its method; R02e: a fallible operand that is always evaluated makes the operation fallible (found and repaired: `to_int(.x) / 2`), also for Not/Group/Query; R02g a coercion narrower than the declared parameter kind is matched by a fallible type_def (P-VAR x P-ABS); R02h per-argument-type refinement of R02a; R02i literal-range agreement for cast-then-bounded integer arguments (found and repaired: `encode_gzip(\"x\", -1)`); R01g (shared with C01) branch isolation while compiling if/else. Not the compiler's whole fallibility calculus.", "§4 C02"),
 })
 
 NA = {}
